@@ -20,10 +20,10 @@ def valid(path, jump):
   return True
 
 
-def all_skeletons(max_depth):
+def all_skeletons(max_depth, constructs=None):
   out = []
   for d in range(1, max_depth + 1):
-    for path in itertools.product(CONSTRUCTS, repeat=d):
+    for path in itertools.product(constructs or CONSTRUCTS, repeat=d):
       for j in JUMPS:
         if valid(path, j):
           out.append((path, j))
@@ -72,11 +72,13 @@ def build(path, jump, reuse_target=False, uncond=False, pure=False, ureads=()):
         emit(ind, 'v = v + 2')
         emit(ind, 'u = 6')
         emit(ind, log('leafpost', 'v'))
-      return
+        return False
+      return True
     c = path[k]
     cond = '(a >> %d) %% 2 == 1' % k
     if c in ('while', 'for'):
       trips = '(b // %d) %% 3' % (3 ** loopidx[k])
+    falls = True
     if c == 'if':
       emit(ind, 'if %s:' % cond)
       inner(k, ind + 1)
@@ -97,7 +99,7 @@ def build(path, jump, reuse_target=False, uncond=False, pure=False, ureads=()):
       inner(k, ind + 1)
     elif c == 'tryfinally':
       emit(ind, 'try:')
-      inner(k, ind + 1)
+      falls = not inner(k, ind + 1)
       emit(ind, 'finally:')
       if pure:
         emit(ind + 1, 'pass')
@@ -119,21 +121,33 @@ def build(path, jump, reuse_target=False, uncond=False, pure=False, ureads=()):
       emit(ind + 1, log('exc2_%d' % k, 'v'))
       if ('h%d' % k) in ureads:
         emit(ind + 1, log('exc2_%d_u' % k, 'u'))
+    elif c == 'infinally':
+      # the nested constructs sit inside a finally block (C05 only: jumps in finally)
+      emit(ind, 'try:')
+      emit(ind + 1, 'v = v + 4')
+      emit(ind, 'finally:')
+      inner(k, ind + 1)
     elif c == 'with':
       emit(ind, "with CM('cm%d'):" % k)
-      inner(k, ind + 1)
+      falls = not inner(k, ind + 1)
+    if not falls:
+      return True     # no dead code after a construct that always jumps
     emit(ind, log('after%d' % k, 'v'))
     if ('a%d' % k) in ureads:
       emit(ind, log('after%d_u' % k, 'u'))
     if ('o%d' % k) in ureads:
       emit(ind, 'u = %d' % (7 + k))
+    return False
 
   def inner(k, ind):
     emit(ind, 'v = v + %d' % (10 ** (k + 1)))
-    body(k + 1, ind)
-    emit(ind, 'v = v * 2')
+    jumps = body(k + 1, ind)
+    if not jumps:
+      emit(ind, 'v = v * 2')
+    return jumps
 
-  body(0, 1)
+  if body(0, 1):
+    return '\n'.join(L) + '\n', n + (1 if jump != 'none' and not uncond else 0), nloops
   if pure:
     emit(1, 'return (v, r, u)' if 'f' in ureads else 'return (v, r)')
   else:
@@ -156,9 +170,11 @@ def inputs_for(nbits, nloops, rng, cap=40):
 def cases(seed, part, parts, tier, pure=False, constructs=None):
   """Yields (case id, module source, inputs) for this slice."""
   depth = 3
-  sk = all_skeletons(depth)
+  sk = all_skeletons(depth, [c for c in constructs if c != 'raise'] if constructs and 'infinally' in constructs else None)
   if constructs is not None:
-    sk = [(p, j) for p, j in sk if all(c in constructs for c in p) and (j not in ('raise', 'raise2') or 'raise' in constructs)]
+    allow_raise = 'raise' in constructs or 'infinally' in constructs
+    constructs = [c for c in constructs if c != 'raise']
+    sk = [(p, j) for p, j in sk if all(c in constructs for c in p) and (j not in ('raise', 'raise2') or allow_raise)]
   rng0 = random.Random('skel/%d' % seed)
   if tier == 'quick':
     # depth<=2 completely (small), depth 3 sampled
@@ -166,12 +182,13 @@ def cases(seed, part, parts, tier, pure=False, constructs=None):
     big = [s for s in sk if len(s[0]) == 3]
     rng0.shuffle(big)
     # exceptional-flow skeletons (two handlers + raise) are always included
-    exc = [s for s in big if sum(c.startswith('tryexcept') for c in s[0]) >= 2 and s[1] in ('raise', 'raise2')]
+    exc = [s for s in big if (sum(c.startswith('tryexcept') for c in s[0]) >= 2 and s[1] in ('raise', 'raise2')) or
+           ('infinally' in s[0] and any(c.startswith('try') for c in s[0][s[0].index('infinally') + 1:]) and s[1] != 'none')]
     rest = [s for s in big if s not in exc]
     sk = small + exc + rest[:200]
   else:
     d4 = [(p, j) for p in itertools.product(constructs or CONSTRUCTS, repeat=4) for j in JUMPS if valid(p, j)]
-    if constructs is not None and 'raise' not in constructs:
+    if constructs is not None and not allow_raise:
       d4 = [s for s in d4 if s[1] not in ('raise', 'raise2')]
     rng0.shuffle(d4)
     sk = sk + d4[:1500]
@@ -183,10 +200,10 @@ def cases(seed, part, parts, tier, pure=False, constructs=None):
     variants = [(False, False)]
     if 'for' in path:
       variants.append((True, False))
-    if jump != 'none' and (tier == 'thorough' or rng.random() < 0.3):
+    if jump != 'none' and (tier == 'thorough' or rng.random() < 0.3 or 'infinally' in path):
       variants.append((False, True))
     if tier == 'quick':
-      variants = [rng.choice(variants)]
+      variants = [rng.choice(variants)] if 'infinally' not in path else variants
     for reuse, uncond in variants:
       sites = ['f'] + ['a%d' % k for k in range(len(path))] + [
           'h%d' % k for k in range(len(path)) if path[k].startswith('tryexcept')] + [
